@@ -13,9 +13,14 @@ pub fn run(tier: Tier, seed: u64) -> ! {
         &|_| {},
     );
     rep.extra.insert("exhaustive".into(), serde_json::json!(true));
+    // seeded serial histories: compositions of many writes on the same entities
+    let rollback_rule = rep.findings.rule_open("C02-R1");
+    for case in 0..tier.pick(300, 20_000) {
+        txm::serial_history(&mut rep, seed, case, rollback_rule);
+    }
     rep.assumptions = vec![
         "interleaving is at statement granularity on one thread (races inside a statement are C20's)".into(),
-        "the matrix is deterministic: the seed does not influence it".into(),
+        "the matrix is deterministic: the seed only drives the serial histories (one active session at a time, 8-37 steps of parametrised writes on shared entities, all read paths after every step; rollback modelled by finding C02-R1 while it is open)".into(),
     ];
     rep.finish()
 }
